@@ -16,7 +16,7 @@ ID = "C18"
 TITLE = "Transects cover exactly the part of the path inside the model, in path order"
 MC = {"quick": [("MC_C18", "MC_C18.cfg", 8)], "thorough": [("MC_C18", "MC_C18_thorough.cfg", 16)]}
 TRACE = ("Trace_C18", "Trace_C18.cfg")
-REQUIRED = ["Transect", "misses-model", "along-shared-edge", "holes", "starts-inside", "starts-outside", "re-enters-cell",
+REQUIRED = ["Transect", "prepared-again", "misses-model", "along-shared-edge", "holes", "starts-inside", "starts-outside", "re-enters-cell",
             "several-vertices", "diagonal", "cf1d", "cf2d", "shoc_simple", "shoc_standard", "arakawa", "ugrid"]
 RULE = ("one case = one dataset whose cells are axis-aligned lattice rectangles (every convention incl. quad meshes, with holes) "
         "and a batch of seeded polylines of 2-5 vertices on the quarter-cell lattice with axis-parallel or 45-degree segments: "
@@ -133,9 +133,9 @@ def cases(tier: str, seed: int) -> list[dict]:
             fixed.append([[x0 + 1, y0 + 1], [x1 - 1, y0 + 1], [x1 - 1, y1 - 1]])
             fixed.append([[x0 + 1, y1 - 1], [x0 + 1, y0 + 1], [x1 - 1, y0 + 1], [x1 - 1, y1 - 1]])
             for kp, p in enumerate(fixed):
-                ev.append({"a": "Transect", "path": p, "var": "temp" if kp % 2 == 0 else "fort"})
+                ev.append({"a": "Transect", "path": p, "var": "temp" if kp % 2 == 0 else "fort", "shift": 1000 if kp % 3 != 1 else 0})
             for _ in range(6 if tier == "quick" else 30):
-                ev.append({"a": "Transect", "path": random_path(rng, bbox, rng.randint(2, 5)), "var": rng.choice(["temp", "fort", ""])})
+                ev.append({"a": "Transect", "path": random_path(rng, bbox, rng.randint(2, 5)), "var": rng.choice(["temp", "fort", ""]), "shift": 0})
             out.append({"src": "gen", "world": w, "events": ev})
     vias = ["file", "memory", "dask", "emsopen", "memory"]      # how the dataset is held (viafile.hold)
     for k, c in enumerate(out):
@@ -184,6 +184,12 @@ def execute(case: dict) -> dict:
             if e["var"]:
                 td = tr.transect_dataset
                 out["prepared"] = CD.proj_array(e["var"], tr.prepare_data_array_for_transect(ds[e["var"]]))
+                if e.get("shift"):
+                    # the same Transect object prepares another array of the same name, dimensions and shape (e.g. the next
+                    # record of a series), and then the first one again
+                    other = (ds[e["var"]] + e["shift"]).rename(e["var"])
+                    out["prepared2"] = CD.proj_array(e["var"], tr.prepare_data_array_for_transect(other))
+                    out["prepared3"] = CD.proj_array(e["var"], tr.prepare_data_array_for_transect(ds[e["var"]]))
             else:
                 out["prepared"] = {"name": "", "dims": [], "shape": [], "data": [1], "dtype": ""}
             return out
